@@ -235,7 +235,7 @@ class Frame(object):
 
 
 class Obligation(object):
-    __slots__ = ("name", "kind", "pc", "goal", "path", "line", "note", "func", "hyp_defs", "backend_hint")
+    __slots__ = ("name", "kind", "pc", "goal", "path", "line", "note", "func", "hyp_defs", "backend_hint", "theories", "extra")
 
     def __init__(self, name, kind, pc, goal, path, line, note="", func=""):
         self.name = name
@@ -247,6 +247,8 @@ class Obligation(object):
         self.note = note
         self.func = func
         self.backend_hint = None
+        self.theories = ()
+        self.extra = ()
 
 
 _EXT_BY_ID = {}
@@ -299,6 +301,7 @@ class Exec(object):
         self.line_stack = []
         self.stats = {"paths": 0, "pruned": 0}
         self.max_paths = 4000
+        self.theories = set()
 
     # ------------------------------------------------------------------ exploration
     def explore(self, thunk):
@@ -456,13 +459,17 @@ class Exec(object):
         if isinstance(goal, SVal) and not isinstance(goal, SBool):
             raise EngineLimit("obligation %s is not boolean" % name)
         g = z3.BoolVal(False) if goal is False else goal.t
-        self.obls.append(Obligation(name, kind, list(self.pc), g, self.path_id(), line, note, self.cur_func))
+        o = Obligation(name, kind, list(self.pc), g, self.path_id(), line, note, self.cur_func)
+        o.theories = tuple(sorted(self.theories))
+        o.extra = tuple(getattr(self, "extra_axioms", ()))
+        self.obls.append(o)
 
     def oblige_decided(self, name, ok, backend, note="", line=None, kind="decided"):
         """an obligation decided at generation time by a complete procedure (polynomial normal form, closed terms)"""
         # a refuted clause still has to be reachable: the SMT-side path condition goes with it
         o = Obligation(name, kind, [] if ok else list(self.pc), z3.BoolVal(bool(ok)), self.path_id(), line, note, self.cur_func)
         o.backend_hint = backend
+        o.theories = tuple(sorted(self.theories))
         self.obls.append(o)
 
     # ------------------------------------------------------------------ conversion of real objects
@@ -832,10 +839,10 @@ class Exec(object):
         bt = z3.simplify(b.t)
         k = self._pow2_minus1(b)
         if k is not None:
-            return SInt(T(a) % sym.POW2(k))
+            return sym.imod(a, SInt(sym.POW2(k)))
         k = self._pow2_minus1(a)
         if k is not None:
-            return SInt(T(b) % sym.POW2(k))
+            return sym.imod(b, SInt(sym.POW2(k)))
         k = self._pow2(b)
         if k is not None:
             # x & 2^k  =  ((x div 2^k) mod 2) * 2^k
@@ -1633,11 +1640,15 @@ class Exec(object):
     def cut_loop(self, st, fr, spec, guard, idx):
         name = "%s#loop%d" % (fr.qual.replace("ecdsa.", "", 1), fr.loop_ord[id(st)])
         env0 = dict(fr.locals)
+        ghosts = spec.ghost or {}
+        for g, (init, step) in ghosts.items():
+            fr.locals[g] = spec.call(self, init, fr)
+        self.last_ghost = getattr(self, "last_ghost", {})
         # 1. invariant holds on entry
         for k, inv in enumerate(spec.invariants):
             self.oblige("%s#inv%d#entry" % (name, k), spec.call(self, inv, fr), "invariant-entry", st.lineno)
         # 2. havoc everything the loop assigns
-        targets = assigned_names(st.body) | ({idx} if idx else set())
+        targets = assigned_names(st.body) | ({idx} if idx else set()) | set(ghosts)
         if isinstance(st, ast.For):
             targets |= names_in_target(st.target)
         for n in sorted(targets):
@@ -1649,6 +1660,8 @@ class Exec(object):
         for k, inv in enumerate(spec.invariants):
             self.assume(spec.call(self, inv, fr))
         dec0 = spec.call(self, spec.decreases, fr) if spec.decreases else None
+        for g in ghosts:
+            self.last_ghost[g] = fr.locals[g]
         if guard():
             try:
                 self.exec_block(st.body, fr)
@@ -1657,6 +1670,8 @@ class Exec(object):
                 return
             except _Continue:
                 pass
+            for g, (init, step) in ghosts.items():
+                fr.locals[g] = spec.call(self, step, fr)
             for k, inv in enumerate(spec.invariants):
                 self.oblige("%s#inv%d#preserved" % (name, k), spec.call(self, inv, fr), "invariant-preserved", st.lineno)
             if dec0 is not None:
